@@ -280,6 +280,20 @@ func (c *DefaultCtx) BodyRaw() []byte {
 	return c.getBody()
 }
 
+// limitedBody collects a decoded request body up to limit bytes
+type limitedBody struct {
+	b     []byte
+	limit int
+}
+
+func (l *limitedBody) Write(p []byte) (int, error) {
+	if l.limit > 0 && len(l.b)+len(p) > l.limit {
+		return 0, fasthttp.ErrBodyTooLarge
+	}
+	l.b = append(l.b, p...)
+	return len(p), nil
+}
+
 func (c *DefaultCtx) tryDecodeBodyInOrder(
 	originalBody *[]byte,
 	encodings []string,
@@ -292,15 +306,18 @@ func (c *DefaultCtx) tryDecodeBodyInOrder(
 
 	for index, encoding := range encodings {
 		decodesRealized++
+		// the decoded body is held to the same limit as a body that is sent as it is: a few
+		// kilobytes of compressed zeros must not make the server allocate gigabytes
+		decoded := limitedBody{limit: c.app.config.BodyLimit}
 		switch encoding {
 		case StrGzip:
-			body, err = c.fasthttp.Request.BodyGunzip()
+			_, err = fasthttp.WriteGunzip(&decoded, c.fasthttp.Request.Body())
 		case StrBr, StrBrotli:
-			body, err = c.fasthttp.Request.BodyUnbrotli()
+			_, err = fasthttp.WriteUnbrotli(&decoded, c.fasthttp.Request.Body())
 		case StrDeflate:
-			body, err = c.fasthttp.Request.BodyInflate()
+			_, err = fasthttp.WriteInflate(&decoded, c.fasthttp.Request.Body())
 		case StrZstd:
-			body, err = c.fasthttp.Request.BodyUnzstd()
+			_, err = fasthttp.WriteUnzstd(&decoded, c.fasthttp.Request.Body())
 		default:
 			decodesRealized--
 			if len(encodings) == 1 {
@@ -312,6 +329,7 @@ func (c *DefaultCtx) tryDecodeBodyInOrder(
 		if err != nil {
 			return nil, decodesRealized, err
 		}
+		body = decoded.b
 
 		// Only execute body raw update if it has a next iteration to try to decode
 		if index < len(encodings)-1 && decodesRealized > 0 {
